@@ -18,6 +18,7 @@ structure ES where
   s : S := {}
   stalled : List (Nat × Nat) := []
   blocked : List Nat := []     -- connections with a frame handler held by the script
+  held : Bool := false         -- a SendToPeer whose transport write is held
 
 def stepS (s : S) (line : String) : S × String :=
   let lab (l : Label) : S × String := step true s l
@@ -96,6 +97,21 @@ def stepLine (e : ES) (line : String) : ES × String :=
         else (e, "dropped")
       | none => (e, "notstalled")
     | none => (e, "bad-op")
+  | ["disconnectall-re", p] => match p.toNat? with
+    | some p => match e.s.peers p with
+      | some c =>
+        -- DisconnectAll; the read-loop teardown of p's old connection; p's inbound reconnect
+        let s1 := (step true e.s (.disconnectAll [1, 2, 3, 4])).1
+        let s2 := (step true s1 (.readerr c)).1
+        let k := s2.next
+        let (s3, o) := step true s2 (.connect p)
+        ({ e with s := s3 }, s!"ok {o} c{k}")
+      | none => (e, "nopeer")
+    | none => (e, "bad-op")
+  | ["sendhold", p] => match p.toNat? with
+    | some p => if (e.s.peers p).isSome && !e.held then ({ e with held := true }, "held") else (e, "nopeer")
+    | none => (e, "bad-op")
+  | ["sendfail"] => if e.held then ({ e with held := false }, "ok") else (e, "notheld")
   | ["sendblock", c] => match connTok c with
     | some c =>
       -- a frame like any other; that its handler does not return changes nothing for the manager
@@ -198,6 +214,14 @@ def specLine (s : SpecSt) (line : String) : SpecSt × String :=
     | ["readerr", c], ["ok"] => (match c.toNat? with | some c => s.down c | none => s, "ok")
     | ["disconnect", p], ["ok"] => (match p.toNat? with | some p => { s with cur := erase s.cur p } | none => s, "ok")
     | ["disconnectall"], _ => ({ s with cur := [] }, "ok")
+    | ["disconnectall-re", p], ["ok", res, _] =>
+      match p.toNat? with
+      | some p =>
+        let c := s.next
+        let s := { s with next := c + 1, peerOf := (c, p) :: s.peerOf, cur := [] }
+        if res = "registered" then ({ s with cur := [(p, c)] }, "ok")
+        else ({ s with rejected := c :: s.rejected }, "ok")
+      | none => (s, "ok")
     | ["learn", p, n], ["ok"] =>
       match p.toNat?, n.toNat? with
       | some p, some n => (match lookup s.cur p with
